@@ -398,14 +398,13 @@ func (c *ctx) oracleRoundTrip(id string, src *GV, fr FromResult) {
 		c.Oracle("C04", id, false, sig, "CopyFrom panicked: "+fr.Panic)
 		return
 	}
-	if len(fr.Diags) > 0 {
-		c.Oracle("C04", id, false, "diag:"+fr.Diags[0].Kind, fmt.Sprintf("diagnostics: %v", fr.Diags))
-		return
-	}
 	a, b := Described(c.info, c.p.b.NF(src, c.rt)), Described(c.info, c.p.b.NF(fr.Val, c.rt))
 	var diffs []string
 	DiffGV(a, b, "", &diffs)
-	if len(diffs) > 0 {
+	if len(fr.Diags) > 0 {
+		// reading back what CopyTo wrote was refused; the scalar leaves lost that way are C19's too (below)
+		c.Oracle("C04", id, false, "diag:"+fr.Diags[0].Kind, fmt.Sprintf("diagnostics: %v", fr.Diags))
+	} else if len(diffs) > 0 {
 		c.Oracle("C04", id, false, ShapeAt(c.info, diffs[0]), "normal forms differ at "+strings.Join(diffs, ", "))
 	} else {
 		c.Oracle("C04", id, true, "", "")
